@@ -46,8 +46,8 @@ ASSUMPTIONS = [
     "the reduced system is solved with dense numpy.linalg.solve (not part of the code under test)",
 ]
 BOUNDS = {
-    "quick": "G0 (3 cells): 36 creation/set orders x all 54 splits x {default@s1, dense@s1, default@s0} at depth 1; depth 2 over 36 operations on 2 systems; G1 (md): whole + restricted splits at depth 1, depth 2 over 47 operations on 1 system",
-    "thorough": "G0: 36 orders x 54 splits x 4 (inverter, state) at depth 1, depth 2 on all 36 systems, depth 3 (18 operations) on 2 systems; G1: all 5494 splits x 3 on 2 systems at depth 1, depth 2 over 82 operations on 4 systems",
+    "quick": "G0 (3 cells): 36 creation/set orders x all 54 splits x default@s1 (+ dense@s1, default@s0 on 2 orders) at depth 1; depth 2 over 24 operations on 2 systems; G1 (md): 38 whole + 3 restricted splits x 3 at depth 1, depth 2 over 26 operations on 1 system",
+    "thorough": "G0: 36 orders x 54 splits x 4 (inverter, state) at depth 1, depth 2 over 36 operations on 6 systems, depth 3 over 18 operations on 1 system; G1: all 5494 splits x 3 on 2 systems at depth 1, depth 2 over 82 operations on 2 systems",
 }
 MIN_CLASSES = 4
 CHUNK = 1
@@ -58,9 +58,12 @@ PERMS = ["".join(p) for p in itertools.permutations("abc")]
 
 
 def _hist_alphabet(grid, vo, eo, rich):
-    ws = gs.whole_splits(grid, vo, eo) + gs.restricted_samples(grid, vo, eo)
+    ws = gs.whole_splits(grid, vo, eo)
+    if not rich and grid == "G1":
+        ws = ws[::2]
+    ws = ws + gs.restricted_samples(grid, vo, eo)
     ops = [{"split": s, "inv": "default", "state": "s1"} for s in ws]
-    s0 = ws if (rich or grid == "G0") else ws[:6]
+    s0 = ws if rich else (ws[:6] if grid == "G0" else ws[:4])
     ops += [{"split": s, "inv": "default", "state": "s0"} for s in s0]
     return ops
 
@@ -68,33 +71,44 @@ def _hist_alphabet(grid, vo, eo, rich):
 def cases(tier):
     out = []
     rich = tier == "thorough"
-    combos = [("default", "s1"), ("dense", "s1"), ("default", "s0")] + ([("dense", "s0")] if rich else [])
-    # ---- depth 1, G0: every order, every split
+    all_combos = [("default", "s1"), ("dense", "s1"), ("default", "s0"), ("dense", "s0")]
+    # ---- depth 1, G0: every creation/set order, every split
     for vo in PERMS:
         for eo in PERMS:
             sp = gs.all_splits("G0", vo, eo)
+            if rich:
+                combos = all_combos
+            elif (vo, eo) in (("abc", "abc"), ("cab", "bca")):
+                combos = all_combos[:3]
+            else:
+                combos = all_combos[:1]
             ops = [{"split": s, "inv": i, "state": st} for s in sp for i, st in combos]
-            out.append({"sys": ["G0", vo, eo], "prefix": [], "alphabet": ops, "depth": 1})
+            for k in range(0, len(ops), 108):
+                out.append({"sys": ["G0", vo, eo], "prefix": [], "alphabet": ops[k:k + 108], "depth": 1})
     # ---- depth 1, G1
     g1_systems = [("abc", "abc"), ("cab", "bca")] if rich else [("bca", "cab")]
     for vo, eo in g1_systems:
         sp = gs.all_splits("G1", vo, eo) if rich else gs.whole_splits("G1", vo, eo) + gs.restricted_samples("G1", vo, eo)
-        ops = [{"split": s, "inv": i, "state": st} for s in sp for i, st in combos[:3]]
-        for k in range(0, len(ops), 150):
-            out.append({"sys": ["G1", vo, eo], "prefix": [], "alphabet": ops[k:k + 150], "depth": 1})
+        ops = [{"split": s, "inv": i, "state": st} for s in sp for i, st in all_combos[:3]]
+        for k in range(0, len(ops), 120):
+            out.append({"sys": ["G1", vo, eo], "prefix": [], "alphabet": ops[k:k + 120], "depth": 1})
     # ---- depth 2: all ordered pairs over the history alphabet (one case per first operation)
-    h_systems = [("G0", vo, eo) for vo in PERMS for eo in PERMS] if rich else [("G0", "abc", "abc"), ("G0", "cab", "bca")]
-    h_systems += [("G1", "abc", "abc"), ("G1", "cab", "bca"), ("G1", "bac", "acb"), ("G1", "cba", "cba")] if rich else [("G1", "bca", "cab")]
+    if rich:
+        h_systems = [("G0", vo, eo) for vo, eo in zip(PERMS, PERMS[3:] + PERMS[:3])]
+        h_systems += [("G1", "abc", "abc"), ("G1", "cab", "bca")]
+    else:
+        h_systems = [("G0", "abc", "abc"), ("G0", "cab", "bca"), ("G1", "bca", "cab")]
     for grid, vo, eo in h_systems:
         alpha = _hist_alphabet(grid, vo, eo, rich)
         for first in alpha:
             out.append({"sys": [grid, vo, eo], "prefix": [first], "alphabet": alpha, "depth": 2})
-    # ---- depth 3 on G0 (thorough)
+    # ---- depth 3 on G0 (thorough): one case per first two operations
     if rich:
-        for vo, eo in (("abc", "abc"), ("cab", "bca")):
-            alpha = [{"split": s, "inv": "default", "state": "s1"} for s in gs.whole_splits("G0", vo, eo)]
-            for first in alpha:
-                out.append({"sys": ["G0", vo, eo], "prefix": [first], "alphabet": alpha, "depth": 3})
+        vo, eo = "cab", "bca"
+        alpha = [{"split": s, "inv": "default", "state": "s1"} for s in gs.whole_splits("G0", vo, eo)]
+        for first in alpha:
+            for second in alpha:
+                out.append({"sys": ["G0", vo, eo], "prefix": [first, second], "alphabet": alpha, "depth": 3})
     return out
 
 
